@@ -57,6 +57,9 @@ fn alpha(cfg: &Cfg) -> Vec<Op> {
     // "the cursor and all modes stay exactly as they were": every mode away from its
     // default (hidden state and cursor visibility are compared after every step)
     v.push(c(Seq(vec![DecRst(vec![25]), DecSet(vec![1]), Sm(vec![20]), Sm(vec![4])])));
+    // auto-wrap switched off and on again wherever the cursor is (the wrap-pending column included)
+    v.push(c(DecRst(vec![7])));
+    v.push(c(DecSet(vec![7])));
     v
 }
 
